@@ -112,6 +112,23 @@ CLAIMS = {
         note=TB + "Partial (see text). kirin's forward-analysis framework and const hints are exercised, not modelled.",
         technique="Lean 4 model + regenerated registry table (decide) + differential correspondence against executed ground truth",
         ref="§3 C09"),
+    "C10": dict(
+        text="Model/ZoneAI.lean: the analysis' transfer functions (static-trap lookup, folded Grid/SubGrid constants through the "
+             "layout index, sub_grid, indexing, fallback top/bottom) and a concrete semantics on straight-line blocks (the analysis "
+             "gives hints for the top-level block only: control-flow statements fall to the fallback). Theorems: C10_transfer_sound "
+             "(every transfer function keeps the promise of its result given the promises of its operands), C10_program_sound "
+             "(every computed value is exactly the named zone's grid, resp. has all its sites among the named zone's sites), "
+             "C10_invalid_never_computed, for blocks of any length; they rest on the proved geometry lemmas "
+             "subGrid_sites_subset / getView_view_subset (views and views of views through ascending in-range index lists select "
+             "parent positions). C10_unsorted_view_escapes is the proved negation witness for non-ascending lists (known finding "
+             "F10, bloqade-geometry). Tie: generated kernels x specs (zones that are views of zones, special grids), unfolded and "
+             "with the spec folded in; ZoneAnalysis entries vs the model, and every hint checked against per-SSA run-time values "
+             "recorded by an instrumented spec interpreter.",
+        note=TB + "Straight-line blocks only (that is all the analysis annotates); index lists are required ascending and in range "
+                  "(StmtOK) - for other lists the property fails in bloqade-geometry (F10, reported as KNOWN-FINDING for exactly "
+                  "the views whose chain contains a non-ascending list).",
+        technique="Lean 4 abstract-interpretation soundness proof (transfer functions + induction over the block) on proved geometry lemmas + differential correspondence with recorded run-time values",
+        ref="§3 C10"),
     "C11": dict(
         text="Theorems: every path the tracer model returns satisfies the well-formedness recogniser WF (invariant by "
              "induction over arbitrary operation sequences), and reversal preserves WF (forward/backward automaton gluing "
